@@ -12,6 +12,7 @@ pub mod c13;
 pub mod c16;
 pub mod c19;
 pub mod conf;
+pub mod dump;
 pub mod spec;
 
 pub struct Ctx {
@@ -114,6 +115,14 @@ pub fn replay(property: &str, case: &serde_json::Value) -> Result<(), String> {
 
 pub fn run(property: &str, ctx: &Ctx, rep: &mut Report) -> Result<(), String> {
     match property {
+        "C03" => {
+            let m = dump::run("C03", ctx, rep);
+            rep.extra.insert("chunks".into(), m);
+        }
+        "C20" => {
+            let m = dump::run("C20", ctx, rep);
+            rep.extra.insert("chunks".into(), m);
+        }
         "C01" => c01::run(ctx, rep),
         "C04" => c04::run(ctx, rep),
         "C11" => c11::run(ctx, rep),
